@@ -200,7 +200,15 @@ func runC19(c *runCtx) {
 			for t := r.Intn(4); t > 0; t-- {
 				es = append(es, mk(markers[k][r.Intn(len(markers[k]))]))
 			}
-			c.c19Case("ooxml-"+k, es)
+			kindS := "ooxml-" + k
+			if r.Intn(5) == 0 {
+				// a JAR / APK marker name inside an OOXML package, before or after the OOXML part
+				extra := mk(append([]string{"META-INF/MANIFEST.MF"}, apk...)[r.Intn(1+len(apk))])
+				p := 1 + r.Intn(len(es))
+				es = append(es[:p], append([]zspec{extra}, es[p:]...)...)
+				kindS += "+java"
+			}
+			c.c19Case(kindS, es)
 		case 3: // JAR / APK
 			es := []zspec{mk("META-INF/MANIFEST.MF")}
 			for t := r.Intn(5); t > 0; t-- {
